@@ -327,11 +327,12 @@ def with_oracle(prop, cfgs):
     return f
 
 
-c01 = with_oracle("C01", [("MC_Curve.tla", "MC_Curve_eval_TIER.cfg")])
+c01 = with_oracle("C01", [("MC_Curve.tla", "MC_Curve_eval_TIER.cfg"), ("MC_Curve.tla", "MC_Curve_wide_eval_quick.cfg")])
 def c02(tier):
     ev = Evidence("C02", tier, core.seed())
     rep = Reporter("C02", ev)
     model_replay("C02", tier, ev, rep, "MC_Curve.tla", f"MC_Curve_basis_{tier}.cfg")
+    model_replay("C02", tier, ev, rep, "MC_Curve.tla", "MC_Curve_wide_basis_quick.cfg")
     driver_big("C02", tier, ev, rep, "basis", 40 if tier == "quick" else 600)
     driver_fn("C02", tier, ev, rep, 60 if tier == "quick" else 1500)
     return finish(ev, rep)
@@ -340,6 +341,7 @@ def c04(tier):
     rep = Reporter("C04", ev)
     res = model_replay("C04", tier, ev, rep, "MC_Curve.tla", f"MC_Curve_insert_{tier}.cfg")
     near_knot_insertions("C04", ev, rep, res.records, limit=150 if tier == "quick" else 2000)
+    model_replay("C04", tier, ev, rep, "MC_Curve.tla", "MC_Curve_wide_insert_quick.cfg")
     if tier == "thorough":
         model_replay("C04", tier, ev, rep, "MC_Curve.tla", "MC_Curve_insert2_thorough.cfg")
     return finish(ev, rep)
@@ -348,6 +350,7 @@ def c06(tier):
     ev = Evidence("C06", tier, core.seed())
     rep = Reporter("C06", ev)
     model_replay("C06", tier, ev, rep, "MC_Curve.tla", f"MC_Curve_elevate_{tier}.cfg")
+    model_replay("C06", tier, ev, rep, "MC_Curve.tla", "MC_Curve_wide_elevate_quick.cfg")
     model_replay("C06", tier, ev, rep, "MC_Curve.tla", f"MC_Curve_decrease_{tier}.cfg")
     driver_big("C06", tier, ev, rep, "elevate", 11 if tier == "quick" else 200)
     return finish(ev, rep)
@@ -356,6 +359,7 @@ def c07(tier):
     rep = Reporter("C07", ev)
     res = model_replay("C07", tier, ev, rep, "MC_Curve.tla", f"MC_Curve_split_{tier}.cfg")
     near_knot_insertions("C07", ev, rep, res.records, limit=100 if tier == "quick" else 2000)
+    model_replay("C07", tier, ev, rep, "MC_Curve.tla", "MC_Curve_wide_split_quick.cfg")
     model_replay("C07", tier, ev, rep, "MC_Curve.tla", f"MC_Curve_join_{tier}.cfg")
     return finish(ev, rep)
 def c08(tier):
@@ -378,7 +382,7 @@ def c14(tier):
     model_replay("C14", tier, ev, rep, "MC_Curve.tla", f"MC_Curve_clean_{tier}.cfg")
     driver_curves("C14", tier, ev, rep, 12 if tier == "quick" else 300, 8 if tier == "quick" else 14)
     return finish(ev, rep)
-c09 = simple("C09", [("MC_Curve.tla", "MC_Curve_deriv_TIER.cfg")])
+c09 = simple("C09", [("MC_Curve.tla", "MC_Curve_deriv_TIER.cfg"), ("MC_Curve.tla", "MC_Curve_wide_calc_quick.cfg")])
 c11 = simple("C11", [("MC_Curve.tla", "MC_Curve_fitcurve_TIER.cfg")])
 def default_nodes_equivariant(ev, rep, records):
     """fit_points(points) without nodes, FLOAT knots: the default nodes are irrational (Chebyshev), so TLC cannot hold
@@ -689,12 +693,17 @@ def c16(tier):
         if "basis" in cfg:
             continue
         model_replay_cached("C16", tier, ev, rep, module, cfg, "minimal-point", cache,
-                            filt=lambda t: not t["pre"].get("a", {}).get("W"), stride=3 if tier == "quick" else 1)
+                            filt=lambda t: not t["pre"].get("a", {}).get("W") and t["act"]["name"] != "CvSplitJoin",
+                            stride=3 if tier == "quick" else 1)   # (joining is not among the operations promised for minimal point types)
     # huge rationals (80-bit numerators and denominators) through an affine reparametrisation and a scaling of the points
     for module, cfg in scen[:5]:
         if "basis" in cfg:
             continue
         model_replay_cached("C16", tier, ev, rep, module, cfg, "huge", cache, stride=3 if tier == "quick" else 1)
+    # rational curves written with weights of size 1e-12 (exact): same curves, same results up to that scale
+    for module, cfg in scen[:5]:
+        model_replay_cached("C16", tier, ev, rep, module, cfg, "tiny-weights", cache,
+                            filt=lambda t: bool(t["pre"].get("a", {}).get("W")), stride=2 if tier == "quick" else 1)
     # operations whose result the spec does not pin down (forced removal / reduction, lossy fitting): the SAME
     # TLC-generated call is executed with Fraction data and with float data and the two results are compared
     for module, cfg in [("MC_Curve.tla", "MC_Curve_remove_quick.cfg"), ("MC_Curve.tla", "MC_Curve_decrease_quick.cfg"),
@@ -871,7 +880,7 @@ def replay_file(prop, path):
         return 0
     if t is not None and isinstance(t, dict) and "act" in t and "pre" in t:
         val = Validator()
-        r = Replayer(lib, d.get("mode", "fraction") if d.get("mode") in ("fraction", "int", "float", "numpy.float64", "huge", "minimal-point") else "fraction",
+        r = Replayer(lib, d.get("mode", "fraction") if d.get("mode") in ("fraction", "int", "float", "numpy.float64", "huge", "minimal-point", "tiny-weights") else "fraction",
                      validator=val)
         live = r.build(t["pre"])
         r.reset_module_state()
